@@ -131,7 +131,7 @@ def run(pid, tier):
     nt += n
     samples += s
     # further components register themselves here
-    for modname in ("checks_node", "checks_tracker_frame", "checks_lifecycle_frame"):
+    for modname in ("checks_node", "checks_nhand_frame", "checks_tracker_frame", "checks_lifecycle_frame"):
         try:
             mod = __import__(modname)
         except ImportError:
